@@ -115,10 +115,7 @@ def run_case(spec) -> Result:
                     continue
                 c = known[o[1] % len(known)]
                 if o[0] == "sup":
-                    if not released(c):
-                        c.supply = o[2]
-                    else:
-                        c.supply = 0 if o[2] < 5 else c.supply  # released children drain
+                    c.supply = o[2]  # also released children may still (or again) report supply while they drain
                 elif o[0] == "util":
                     c.utilisation = c.allocation = o[2]
                 elif not released(c):
